@@ -351,8 +351,27 @@ def run(rep, tier):
         fn = fs[0]
         # it gives up early only because the anchor changed or the link repair lost; it repairs the link only when it is stale
         ffs = FactFlow(fn)
+        # once-defined locals: 'bool const stale = prevnext.get_ptr() != lrs.get_left_ptr(); if (stale)' reads like the test itself,
+        # 'atomic_node_pointer& back_link = prev.get_ptr()->left' like the link
+        once = {}
+        for _, _, e in fn.all_events():
+            if e.get("k") == "decl" and e.get("init") is not None:
+                once.setdefault(e["var"], []).append(e["init"])
+        wr9 = {P(e["lhs"]) for _, _, e in fn.all_events() if e.get("k") == "write"}
+        once = {v: T(i[0]) for v, i in once.items() if len(i) == 1 and v not in wr9}
+
+        def unfold(txt, depth=3):
+            # only a fact / receiver that *is* such a local is replaced (prevnext itself stays prevnext)
+            for _ in range(depth):
+                t0 = txt.strip()
+                if t0 in once:
+                    txt = once[t0]
+                else:
+                    break
+            return txt
+        link_of = lambda e: unfold(P(e.get("recv") or {}) or "")
         for b, i, e in fn.all_events():
-            fb = ffs.before.get((b, i)) or frozenset()
+            fb = frozenset((unfold(a), t) for a, t in (ffs.before.get((b, i)) or frozenset()))
             if e.get("k") == "return":
                 n9 += 1
                 chg = any(t and re.search(r"anchor_ != lrs|lrs != .*anchor_", a) for a, t in fb) or any((not t) and re.search(r"anchor_ == lrs|lrs == .*anchor_", a) for a, t in fb)
@@ -362,7 +381,7 @@ def run(rep, tier):
                 else:
                     rep.bad("C17.R9", fn, loc_of(e), short + ":gives-up", "%s returns early on a path where the anchor was not seen changed and the link repair did not fail: the "
                             "deque is never marked stable again, every later operation spins in stabilize" % short)
-            if e.get("k") == "call" and callee_short(e) == "compare_exchange_strong" and re.search(r"->%s$" % side, P(e.get("recv") or {})):
+            if e.get("k") == "call" and callee_short(e) == "compare_exchange_strong" and re.search(r"->%s$" % side, link_of(e)):
                 stale = any(t and re.search(r"prevnext\.get_ptr\(\) != lrs|lrs\.get_\w+_ptr\(\) != prevnext", a) for a, t in fb) or \
                     any((not t) and re.search(r"prevnext\.get_ptr\(\) == lrs|lrs\.get_\w+_ptr\(\) == prevnext", a) for a, t in fb)
                 n9 += 1
@@ -371,13 +390,16 @@ def run(rep, tier):
                 else:
                     rep.bad("C17.R9", fn, loc_of(e), short + ":repair-guard", "%s rewrites the neighbour's link on a path where it was not seen stale (and skips it when it is): the new end node "
                             "is never linked in, the next pop at that end walks past it" % short)
-        xs = [(b, i, e) for b, i, e in fn.all_events() if e.get("k") == "call" and callee_short(e) == "compare_exchange_strong" and re.search(r"->%s$" % side, P(e.get("recv") or {}))]
+        xs = [(b, i, e) for b, i, e in fn.all_events() if e.get("k") == "call" and callee_short(e) == "compare_exchange_strong" and re.search(r"->%s$" % side, link_of(e))]
         if not xs:
             rep.bad("C17.R9", fn, fn.loc, short + ":no-link-repair", "%s no longer repairs the inward link of the old end node (compare_exchange_strong on ->%s)" % (short, side))
         for b, i, e in xs:
             n9 += 1
             exp = P(e["args"][0])
             new = strip(e["args"][1])
+            if isinstance(new, dict) and new.get("k") == "var" and not new.get("param"):
+                from engine.kinds import expand_locals as _xl9
+                new = strip(_xl9(fn, e["args"][1], depth=1))       # 'node_pointer const repaired(ptr, tag + 1); link.compare_exchange_strong(prevnext, repaired)'
             targs = new.get("args") if isinstance(new, dict) and new.get("k") == "construct" else None
             okt = False
             if targs and len(targs) >= 2:
@@ -412,13 +434,31 @@ def run(rep, tier):
             continue
         pos_of = {id(e): (b, i) for b, i, e in fn.all_events()}
         is_chk = lambda e: pos_of.get(id(e)) in chk
-        is_load = lambda e: e.get("k") == "call" and callee_short(e) == "load" and re.search(r"->(left|right)$", P(e.get("recv") or {}) or "")
+        # receivers are read through once-defined locals: 'node* const leftmost = lrs.get_left_ptr(); leftmost->right.load()',
+        # 'atomic_node_pointer& back_link = prev.get_ptr()->left; back_link.load()'
+        once10 = {}
+        for _, _, e_ in fn.all_events():
+            if e_.get("k") == "decl" and e_.get("init") is not None:
+                once10.setdefault(e_["var"], []).append(e_["init"])
+        wr10 = {P(e_["lhs"]) for _, _, e_ in fn.all_events() if e_.get("k") == "write"}
+        once10 = {v: T(i_[0]) for v, i_ in once10.items() if len(i_) == 1 and v not in wr10 and v not in ("prev", "prevnext")}
+
+        def recvt(e, once10=once10):
+            t = P(e.get("recv") or {}) or ""
+            for _ in range(3):
+                m_ = re.match(r"^([A-Za-z_]\w*)(.*)$", t)
+                if m_ and m_.group(1) in once10:
+                    t = once10[m_.group(1)] + m_.group(2)
+                else:
+                    break
+            return t
+        is_load = lambda e: e.get("k") == "call" and callee_short(e) == "load" and re.search(r"->(left|right)$", recvt(e))
         loads = [(b, i, e) for b, i, e in fn.all_events() if is_load(e)]
         if len(loads) < 2:
             raise AnalysisBroken("%s: link loads not recognised" % short)
-        targets = [(b, i, e, "dereferences the neighbour pointer it loaded") for b, i, e in loads if not P(e["recv"]).startswith("lrs.")]
+        targets = [(b, i, e, "dereferences the neighbour pointer it loaded") for b, i, e in loads if not recvt(e).startswith("lrs.")]
         targets += [(b, i, e, "repairs the link") for b, i, e in fn.all_events() if e.get("k") == "call" and callee_short(e) == "compare_exchange_strong"
-                    and re.search(r"->%s$" % side, P(e.get("recv") or {}) or "")]
+                    and re.search(r"->%s$" % side, recvt(e))]
         for b, i, e, what in targets:
             n10 += 1
             if precedes_on_all_paths(fn, is_chk, (b, i), reset_pred=is_load):
@@ -500,6 +540,20 @@ def run(rep, tier):
             l_ = [t for a, t in fb if re.search(r"get_left_tag\(\) == (pika::concurrency::detail::)?lpush$|^(pika::concurrency::detail::)?lpush == .*get_left_tag\(\)$", a)]
             right = callee_short(e) == "stabilize_right"
             good = (right and (True in r_ or False in l_)) or ((not right) and (False in r_ or True in l_))
+            if not good:
+                # 'switch (lrs.get_left_tag()) { case rpush: stabilize_right(lrs); break; default: stabilize_left(lrs); }'
+                preds = [(pb, lab, meta) for pb in fz.blocks.values() for lab, tgt, meta in pb.succ if tgt == b]
+                srcs = {pb.id for pb, _, _ in preds}
+                if len(srcs) == 1 and preds[0][0].cond is not None and T(preds[0][0].cond).endswith("get_left_tag()"):
+                    sw = preds[0][0]
+                    name_of = lambda meta: (strip(meta.get("case") or {}) or {}).get("name")
+                    here = {name_of(meta) for _, lab, meta in preds if lab == "case"}
+                    dflt_here = any(lab == "default" for _, lab, _ in preds)
+                    elsewhere = {name_of(meta) for lab, tgt, meta in sw.succ if lab == "case" and tgt != b}
+                    if right:
+                        good = here == {"rpush"} and not dflt_here
+                    else:
+                        good = (here == {"lpush"} and not dflt_here) or (dflt_here and here <= {"lpush"} and "rpush" in elsewhere)
             if good:
                 okz += 1
                 rep.ok("C17.R4", fz, "stabilize dispatches to %s for status %s" % (callee_short(e), "rpush" if right else "lpush"))
